@@ -65,7 +65,9 @@ def queries(tier):
         nm = '%s_len%d_pos%d_pat%d%s%s' % (an, n, pos, pat, '_hex' if hexm else '', '_str' if fs else '')
         if any(x['name'] == nm for x in qs):
             return
-        q(nm, 'h_md.c', {'ALG': alg, 'LEN': n, 'POS': pos, 'PAT': pat, 'HEX': hexm, 'FROM_STRING': fs}, 200, 900, cost=30 + n // 2,
+        # translation validation (same generated C for every cell of a harness) on the boundary lengths only in the thorough tier
+        tv = (not thorough) or n in (0, 1, 3, 55, 56, 63, 64, 65, 119, 120, 128, 130)
+        q(nm, 'h_md.c', {'ALG': alg, 'LEN': n, 'POS': pos, 'PAT': pat, 'HEX': hexm, 'FROM_STRING': fs}, 200, 900, cost=30 + n // 2, tv=tv,
           desc='%s %s of a %d-byte message (fill pattern %d, byte %d free over all 256 values, %s constructor) == reference implementation (RFC 1321 / FIPS 180-4)'
                % (an, 'hex()' if hexm else 'bin()', n, pat, pos, 'std::string' if fs else 'pointer'),
           bounds='length %d, one free byte at position %d' % (n, pos))
@@ -91,7 +93,7 @@ def queries(tier):
     if HOOK:
         for alg, an in ALGS:
             for n in (range(0, 131) if thorough else (0, 1, 55, 56, 57, 63, 64, 65, 119, 120)):
-                q('%s_frame_len%d' % (an, n), 'h_frame.c', {'ALG': alg, 'LEN': n}, 200, 600, flags=['--slice-formula'], cost=10,
+                q('%s_frame_len%d' % (an, n), 'h_frame.c', {'ALG': alg, 'LEN': n}, 200, 600, flags=['--slice-formula'], cost=10, tv=(not thorough) or n % 16 == 0 or n in (55, 56, 119, 120),
                   desc='%s: blocks handed to the compression function == msg || 0x80 || 0* || bitlen64 for a fully symbolic %d-byte message (both constructors)' % (an, n),
                   bounds='length %d, all contents' % n)
     return qs
